@@ -498,8 +498,11 @@ PROPS["C14"] = dict(
     modules=["FjallModel.Props.C14"],
     theorems=["Fjall.Conc.c14_linearizable", "Fjall.Conc.c14_real_time", "Fjall.Conc.c14_orders_agree", "Fjall.Conc.c14_final_content",
               "Fjall.Stall.c14_stall_no_deadlock", "Fjall.Stall.c14_stall_bounded_work",
-              "Fjall.Stall.c14_worker_blocking_send_deadlocks", "Fjall.Stall.c14_stall_inside_lock_deadlocks"],
+              "Fjall.Stall.c14_worker_blocking_send_deadlocks", "Fjall.Stall.c14_stall_inside_lock_deadlocks",
+              "Fjall.Conc.c14_get_then_scan_counterexample"],
     statements={
+        "c14_get_then_scan_counterexample": "known finding F27 on the Conc model: a get sees an applied, unpublished item and the scan opened afterwards does not "
+                                            "(c14_linearizable is about writes and point reads; scans are snapshot reads)",
         "c14_stall_no_deadlock": "Stall model (writers: lock / write+unlock+rotation request / stall check; workers: rotation requests and flushes through a bounded channel and the journal "
                                  "lock), any capacity, any threshold >= 1, any writers and programs, >= 1 worker, every schedule: in every reachable state with an unfinished writer some "
                                  "thread's next step is effective and lowers rank",
@@ -512,7 +515,7 @@ PROPS["C14"] = dict(
         "c14_orders_agree": "seqno order = journal order (strict) = memtable apply order (non-decreasing)",
         "c14_final_content": "whenever no write is in flight the memtables hold exactly the items of all journaled (= acknowledged) writes, each entirely, in seqno order",
     },
-    engines=[dict(bin="conc", cases_quick=480, cases_thorough=12000, profiles=["release"], profiles_thorough=["release", "dev"]),
+    engines=[dict(bin="conc", args=["--mode", "c14"], cases_quick=480, cases_thorough=12000, profiles=["release"], profiles_thorough=["release", "dev"]),
              dict(bin="stall", args=[], cases_quick=160, cases_thorough=4000, profiles=["release"], profiles_thorough=["release", "dev"])],
     rule="stall: case = 1-3 writer threads (2-8 writes of 40-1500 bytes against a 2000-byte memtable limit) and 1, 2 or 4 worker threads running the crate's own "
          "worker_tick, stepped one at a time through write.locked / write.unlocked / write.stall and the worker.* pause points under a random schedule with "
